@@ -235,6 +235,21 @@ class Family:
         return self.ns[name](**kw)
 
 
+def release_builders():
+    """The library memoises CodeBuilder methods with functools.lru_cache (get_field_default without bound), which keeps
+    every builder -- and with it every class family ever created in this process -- alive.  A finished history's families
+    are dropped here so that the thorough tier stays small (the memo is keyed by builder instance: nothing a later
+    family could observe)."""
+    try:
+        from mashumaro.core.meta.code.builder import CodeBuilder
+        for f in (CodeBuilder.__dict__.get("get_field_default"), CodeBuilder.__dict__.get("get_config"),
+                  getattr(CodeBuilder.__dict__.get("dataclass_fields"), "fget", None)):
+            if hasattr(f, "cache_clear"):
+                f.cache_clear()
+    except Exception:  # noqa: BLE001  (a library without these memos: nothing to release)
+        pass
+
+
 # ---------------------------------------------------------------------------
 # canonical forms
 # ---------------------------------------------------------------------------
